@@ -294,13 +294,71 @@ func RequiredGuards(r *core.Run, guards []RequiredGuard) {
 					return true
 				}
 				for i, st := range list {
+					var prev ast.Stmt
+					if i > 0 {
+						prev = list[i-1]
+					}
+					// a switch clause is an if in another spelling
+					if sw, ok := st.(*ast.SwitchStmt); ok {
+						// `switch len(x) { case 0: … case 1: … default: <error> }`: the default arm is `len(x) > 1`
+						if sw.Tag != nil {
+							var maxCase ast.Expr
+							var maxVal int64 = -1
+							allConst := true
+							var def *ast.CaseClause
+							for _, cl := range sw.Body.List {
+								cc := cl.(*ast.CaseClause)
+								if cc.List == nil {
+									def = cc
+								}
+								for _, ce := range cc.List {
+									if k, isC := core.ConstInt(info, ce); isC {
+										if k > maxVal {
+											maxVal, maxCase = k, ce
+										}
+									} else {
+										allConst = false
+									}
+								}
+							}
+							if def != nil && allConst && maxCase != nil {
+								syn := &ast.IfStmt{If: def.Pos(), Cond: &ast.BinaryExpr{X: sw.Tag, Op: token.GTR, Y: maxCase}, Body: &ast.BlockStmt{Lbrace: def.Colon, List: def.Body, Rbrace: def.End()}}
+								if bodyReturnsError(info, syn.Body, errIdx, inLit) && g.Match(info, syn, prev) {
+									found = true
+								}
+							}
+						}
+						for _, cl := range sw.Body.List {
+							cc := cl.(*ast.CaseClause)
+							// guards nested in the clause are visited by the enclosing Inspect
+							for _, ce := range cc.List {
+								cond := ce
+								if sw.Tag != nil {
+									cond = &ast.BinaryExpr{X: sw.Tag, Op: token.EQL, Y: ce}
+								}
+								syn := &ast.IfStmt{If: cc.Pos(), Cond: cond, Body: &ast.BlockStmt{Lbrace: cc.Colon, List: cc.Body, Rbrace: cc.End()}}
+								if sw.Init != nil {
+									syn.Init = sw.Init
+								}
+								if bodyReturnsError(info, syn.Body, errIdx, inLit) && g.Match(info, syn, prev) {
+									found = true
+								}
+							}
+						}
+						continue
+					}
 					ifs, ok := st.(*ast.IfStmt)
 					if !ok {
 						continue
 					}
-					var prev ast.Stmt
-					if i > 0 {
-						prev = list[i-1]
+					// inverted spelling: `if ok-condition { return <no error> }` directly followed by `return <error>`
+					if ifs.Else == nil && i+1 < len(list) && !bodyReturnsError(info, ifs.Body, errIdx, inLit) && endsInReturn(ifs.Body) {
+						if ret, isRet := list[i+1].(*ast.ReturnStmt); isRet {
+							syn := &ast.IfStmt{If: ret.Pos(), Cond: Negate(ifs.Cond), Body: &ast.BlockStmt{Lbrace: ret.Pos(), List: []ast.Stmt{ret}, Rbrace: ret.End()}}
+							if bodyReturnsError(info, syn.Body, errIdx, inLit) && g.Match(info, syn, prev) {
+								found = true
+							}
+						}
 					}
 					// the statement itself and every else-if of its chain
 					for cur := ifs; cur != nil; {
@@ -314,7 +372,12 @@ func RequiredGuards(r *core.Run, guards []RequiredGuard) {
 				return true
 			})
 		}
-		visit(fd.Body, false)
+		// the function itself and the same-package helpers it calls: a guard
+		// extracted into a helper still guards
+		for _, d := range core.TreeDecls(pk, fd, 3) {
+			errIdx = errResultIndex(info, d.Type)
+			visit(d.Body, false)
+		}
 		if found {
 			o.Auto("present")
 		} else {
@@ -428,4 +491,36 @@ func ReachableAvoiding(body *ast.BlockStmt, target ast.Node, excl func(cond ast.
 		return false
 	}
 	return walk(g.Blocks[0])
+}
+
+func endsInReturn(b *ast.BlockStmt) bool {
+	if len(b.List) == 0 {
+		return false
+	}
+	_, ok := b.List[len(b.List)-1].(*ast.ReturnStmt)
+	return ok
+}
+
+// Negate builds the negation of a condition with the negation pushed inwards
+// (De Morgan, flipped comparison operators). Leaves are the original nodes, so
+// type information stays available for them.
+func Negate(e ast.Expr) ast.Expr {
+	switch x := core.Unparen(e).(type) {
+	case *ast.UnaryExpr:
+		if x.Op == token.NOT {
+			return x.X
+		}
+	case *ast.BinaryExpr:
+		flip := map[token.Token]token.Token{token.EQL: token.NEQ, token.NEQ: token.EQL, token.LSS: token.GEQ, token.GEQ: token.LSS, token.GTR: token.LEQ, token.LEQ: token.GTR}
+		switch x.Op {
+		case token.LAND:
+			return &ast.BinaryExpr{X: Negate(x.X), Op: token.LOR, Y: Negate(x.Y), OpPos: x.OpPos}
+		case token.LOR:
+			return &ast.BinaryExpr{X: Negate(x.X), Op: token.LAND, Y: Negate(x.Y), OpPos: x.OpPos}
+		}
+		if op, ok := flip[x.Op]; ok {
+			return &ast.BinaryExpr{X: x.X, Op: op, Y: x.Y, OpPos: x.OpPos}
+		}
+	}
+	return &ast.UnaryExpr{Op: token.NOT, X: e, OpPos: e.Pos()}
 }
